@@ -227,6 +227,12 @@ func genC14(c *Ctx) {
 			return
 		}
 		if unspec {
+			// whether the call is accepted is left open here (ValidOn Any/Single against a list); in the AsArray chains, WHEN it is
+			// accepted, the type reported is still the one the rule gives (the element type is known one level deep)
+			want := "ACC " + pt + " " + pio
+			if strings.Contains(cls, "chain/list-of-") && strings.HasPrefix(o.Line, "ACC") && o.Line != want && !(strings.HasSuffix(want, "Array") && strings.HasSuffix(o.Line, "Array")) {
+				c.addViolation(mk("oracle", "the call is accepted and the reported type differs from the descriptor rule", "typing-when-accepted:"+calls[len(calls)-1].N+":"+rc.T+rc.IO))
+			}
 			return
 		}
 		got := o.Line
